@@ -2,6 +2,7 @@ package main
 
 import (
 	"bytes"
+	"context"
 	"encoding/json"
 	"errors"
 	"fmt"
@@ -14,6 +15,7 @@ import (
 	"time"
 
 	"github.com/iden3/go-schema-processor/v2/loaders"
+	"github.com/iden3/go-schema-processor/v2/merklize"
 	"github.com/piprate/json-gold/ld"
 )
 
@@ -280,6 +282,8 @@ type revOrigin struct {
 	failNext int
 	failKind string
 	reqs     int
+	// after this many further requests the other revision becomes current (0 = no change pending)
+	switchAfter int
 }
 
 func (o *revOrigin) RoundTrip(req *http.Request) (*http.Response, error) {
@@ -288,6 +292,14 @@ func (o *revOrigin) RoundTrip(req *http.Request) (*http.Response, error) {
 	o.reqs++
 	if req.URL.String() != o.url {
 		return &http.Response{StatusCode: 404, Body: io.NopCloser(strings.NewReader("not found")), Header: http.Header{}, Request: req}, nil
+	}
+	if o.switchAfter > 0 {
+		// the context is re-published while an operation is under way: this request is the last one answered with the
+		// revision current so far
+		o.switchAfter--
+		if o.switchAfter == 0 {
+			defer func() { o.cur = 1 - o.cur }()
+		}
 	}
 	if o.failNext > 0 {
 		o.failNext--
@@ -374,6 +386,33 @@ func emitC15OverHTTP(out *Out, r *Rng) {
 			}
 		}
 	}
+	// the same through the loader the merklizer makes for itself when IPFS options are given (no loader passed): a context
+	// that may be cached is fetched once per merklization, so a re-publication right after that request cannot split the
+	// operation between two revisions
+	oldT := http.DefaultTransport
+	http.DefaultTransport = o
+	for k := 0; k < 3; k++ {
+		o.mu.Lock()
+		o.cur, o.policy, o.failNext, o.switchAfter = r.Intn(2), r.Pick([]string{"max-age=60", "expires+3600", "max-age=3600"}), 0, 1
+		o.mu.Unlock()
+		opt := merklize.WithIPFSGateway("https://gw.example")
+		if r.Bool() {
+			opt = merklize.WithIPFSClient(rawIPFS{&scriptedOrigin{docs: map[string]*orgEntry{}}, map[string]string{}})
+		}
+		res, err := guard(10*time.Second, func() (*merklize.Merklizer, error) {
+			return merklize.MerklizeJSONLD(context.Background(), bytes.NewReader(doc), opt)
+		})
+		merklized++
+		if err != nil {
+			hist = append(hist, "merklize with IPFS options: error")
+			continue
+		}
+		hist = append(hist, fmt.Sprintf("merklize with IPFS options: %d entries", len(res.VerifEntries())))
+		if !okRoots[true][res.Root().BigInt().String()] {
+			why = append(why, fmt.Sprintf("with IPFS options (the merklizer's own loader) and the context re-published right after the first request: the result (%d entries) is not the merklization of the document under any published revision: a field was silently dropped", len(res.VerifEntries())))
+		}
+	}
+	http.DefaultTransport = oldT
 	out.Emit(Case{Op: "none", In: J{"doc": string(doc), "term": term, "scoped": scoped, "history": hist}, Impl: okJ(merklized), Prop: propOf(why),
 		Tags: []string{"over-http", fmt.Sprintf("scoped:%v", scoped)}, NT: merklized > 0})
 }
